@@ -43,11 +43,14 @@ fn main() {
     }
     let (prop, tier) = (args[1].as_str(), args[2].as_str());
     let mut rep = Report::new(prop, tier, "");
-    match prop {
+    let r = std::panic::catch_unwind(std::panic::AssertUnwindSafe(|| match prop {
         "C10" => c10::check(tier, &mut rep),
         "C11" => c11::check(tier, &mut rep),
         "C12" => c12::check(tier, &mut rep),
         _ => std::process::exit(2),
+    }));
+    if r.is_err() {
+        rep.violation(vcommon::report::Violation { signature: "panic".into(), case: serde_json::json!({"special": "uncaught"}), detail: "subject panicked outside a guarded case".into() });
     }
     std::process::exit(rep.finish());
 }
